@@ -271,7 +271,7 @@ def check(col, prog, tier, profile, fixture=None):
         I = cx.analyse(b, pre_eq=pre)
         rp = I.reader_place
         is_token_reader = _is_readable_impl(crate, b)
-        ends = [("exit", s) for s in I.final_states] + [("backedge", s) for l in I.backedge_states.values() for s in l]
+        ends = [("exit", s) for s in I.final_states] + [("backedge", s) for l in I.backedge_states.values() for s in l] + [("backedge", s) for s in I.inl_back]   # (loops of inlined private helpers too)
         # ---- INV at exits / back edges
         inv_ok = True
         for kind, st in ends:
@@ -308,7 +308,7 @@ def check(col, prog, tier, profile, fixture=None):
                 col.ok("W8" + sfx, b.loc(), "%s|token-end" % fk(b), "%d exit path(s): whitespace seen or eof set" % n_exit)
         # ---- W1 / W1b / W2b / W5 from events
         seen = set()
-        allst = I.final_states + I.diverged + [s for l in I.backedge_states.values() for s in l]
+        allst = I.final_states + I.diverged + [s for l in I.backedge_states.values() for s in l] + list(I.inl_back)
         for st in allst:
             for ev in st.event_list():
                 if ev.kind == "idxread":
@@ -810,7 +810,7 @@ def _composite_rules(col, cx, crate, r, sfx):
     b = util.need_body(crate, "Reader::<'a>::read_vec")
     I = cx.analyse(b)
     okv = False
-    for st in [s for l in I.backedge_states.values() for s in l]:
+    for st in [s for l in I.backedge_states.values() for s in l] + list(I.inl_back):
         evs = [e for e in st.event_list() if e.kind == "call"]
         rd = [e for e in evs if e.extra.get("name") == "read"]
         ps = [e for e in evs if e.extra.get("name") == "push"]
@@ -866,6 +866,13 @@ def _composite_rules(col, cx, crate, r, sfx):
             some = some or good
         if allp and some:
             okv = rng_ok = True
+    # ... on every returning path: one that never walks 0..n (`if n == 1 { return Vec::new() }`) may only be n == 0
+    n_all = ("param", 2, I.names.get(2))
+    for st in I.final_states:
+        evs_ = st.event_list()
+        walked = any(e.kind == "loop" for e in evs_) or any(e.kind == "call" and e.extra.get("name") in ("collect", "extend", "from_iter") for e in evs_)
+        if not walked and not zones.entails(st.facts, "Eq", n_all, mk_int(0), I.tys):
+            okv = False
     if okv and rng_ok:
         col.ok("W7" + sfx, b.loc(), "%s|n-reads-in-order" % fk(b), "one read per element of 0..n, results collected in order")
     else:
